@@ -23,6 +23,9 @@ CLAIMS = {
  "C08": dict(text="Coq refinement theorems for both policies and every history of set_visibility / despawn / tick operations: the visibility query equals the most recent setting, the per-tick classification hidden/gained/visible equals (current, previous) of the specification, despawn records are produced exactly for entities the client holds that became hidden or were despawned (complete; the only extra records are named), operations on one entity never affect another. The ClientVisibility model is tied to the code through hooks on generated histories; an independent python (current, previous, pending) specification judges the implementation.",
              note="Layer 0 (the state machine and its use by collect_despawns); that no message carries data of a hidden entity is the sim correspondence (message contents compared with the model and scanned against the visible set). Open finding D22: settings made between a marker removal and the next tick are forgotten.",
              tech="Coq proof (invariant relating list/added/removed to (cur, prev)) + correspondence through cfg-gated hooks", ref="DESIGN.md 6/C08"),
+ "C18": dict(text="Coq theorems for all worlds, rule lists and initial scenes: the result has exactly one entity per marked entity plus the untouched entities already in the scene; a marked entity carries (the non-exported components it already had) ++ one copy of each reflectable component the replication rules select, with current values; no duplicates arise; export is idempotent; rule insertion keeps priority order; the selection equals what the server replicates. The model is tied to the code by exporting from real Bevy apps (reflected / unreflected / unregistered types, overlapping single and bundle rules) and comparing scenes, plus a RON serialize/deserialize round trip on the implementation.",
+             note="Bevy reflection, type registry and scene serialization are exercised, not modelled. A rule on the Replicated marker itself would export it (observation). Hash-map entity order is compared sorted.",
+             tech="Coq proof (per-entity export specification, sortedness of rule insertion) + correspondence on real apps", ref="DESIGN.md 6/C18"),
 }
 ORDER = [p["id"] for p in props]
 checks = []
